@@ -302,6 +302,7 @@ Accepts(a, v) ==
 (* with soundevent.io.save and loaded again.                               *)
 (***************************************************************************)
 Clauses == {"Evaluates", "EvaluatedClipsAreIntersection", "DistinctTerms", "ValueIsNamedMetric", "NoneClassHandling",
+            "BalancedEqualsAccuracyOnBalanced",
             "ScoresAreMeans", "OrderIndependent", "SurvivesAoef"}
 
 \* one clip evaluation for every clip present in both inputs (the binder maps clip evaluations to the clips of the
@@ -320,6 +321,23 @@ RunDistinct(r) ==
     /\ \A k \in DOMAIN r.clips :
           /\ ListDistinct(r.clips[k].metrics)
           /\ \A x \in DOMAIN r.clips[k].matches : ListDistinct(r.clips[k].matches[x].metrics)
+
+\* The term's own definition of balanced accuracy ends: "Thus for balanced datasets, the score is equal to accuracy."
+\* Balanced: every class that OCCURS among the truths ('none' included) occurs equally often; classes that never
+\* occur do not matter (balanced accuracy averages the recall over the occurring classes).  Then, however ties are
+\* broken, one and the same prediction per item gives mean recall = (1/K) sum_k h_k/(n/K) = sum_k h_k / n = accuracy.
+Balanced(its, C) ==
+    LET n == Len(its)
+        cnt(k) == Cardinality({i \in 1..n : Truth(its[i], C) = k})
+        present == {Truth(its[i], C) : i \in 1..n}
+    IN  \A k1, k2 \in present : cnt(k1) = cnt(k2)
+\* within one metric list computed over the items `its`: a balanced-accuracy value equals an accuracy value next to it
+ListBalancedEq(c, ms, its) ==
+    (SingleLabel(c.task) /\ Len(its) > 0 /\ Balanced(EffSeq(its), c.C)) =>
+        \A i, j \in DOMAIN ms : (MetricOf(ms[i]) = "bacc" /\ MetricOf(ms[j]) = "acc") => LClose(ms[i].v, ms[j].v)
+RunBalancedEq(c, r) ==
+    /\ ListBalancedEq(c, r.metrics, c.items)
+    /\ \A k \in DOMAIN r.clips : ListBalancedEq(c, r.clips[k].metrics, ClipItems(c, k))
 
 \* sel(mid): which metrics this clause looks at
 RunValues(c, r, sel(_)) ==
@@ -379,6 +397,7 @@ Holds(cl, o) ==
       [] cl = "EvaluatedClipsAreIntersection" -> \A ri \in 1..2 : Returned(rs[ri]) => RunEvaluatesIntersection(c, rs[ri])
       [] cl = "DistinctTerms"      -> (Returned(f) => RunDistinct(f)) /\ (Returned(v) => RunDistinct(v))
       [] cl = "ValueIsNamedMetric" -> \A ri \in 1..2 : Returned(rs[ri]) => RunValues(c, rs[ri], LAMBDA mid : TRUE)
+      [] cl = "BalancedEqualsAccuracyOnBalanced" -> \A ri \in 1..2 : Returned(rs[ri]) => RunBalancedEq(c, rs[ri])
       [] cl = "NoneClassHandling"  -> HasUnlabelled(c) =>
                                         \A ri \in 1..2 : Returned(rs[ri]) =>
                                             RunValues(c, rs[ri], LAMBDA mid : mid \in {"acc", "bacc", "top3", "map", "tcp"})
